@@ -186,6 +186,48 @@ theorem evWave_local (g : WCfg) (loc : Nat → Int) (hcap : ∀ i, 2 ≤ g.cap i
     · show ((waveCounts g _ _).1, (waveCounts g _ _).2) = ((waveCounts g _ _).1, (waveCounts g _ _).2)
       rw [hxs]
 
+/-! ### one evaluation on memory = the waveform model on what memory holds -/
+theorem ok_stored {w : Wv} (h : w.ok) : (∀ x ∈ w.ents, isEnd x = false) ∧ isEnd w.term = true := by
+  obtain ⟨⟨_, h2⟩, h3⟩ := h
+  constructor
+  · intro x hx
+    rcases h2 x hx with rfl | hf
+    · rfl
+    · cases x <;> simp_all [T.isFin, isEnd]
+  · revert h3
+    cases w.term <;> simp [T.isTerm, isEnd]
+
+/-- delays ≥ 0, output capacity ≥ 4, well-formed operand waveforms in memory: after the evaluation the output region reads back
+    as `Wave.waveSem` of the operand waveforms read from memory (the signal-level op semantics of C03–C05, C13), the returned
+    counts are `Wave.waveCounts`, and nothing outside the output region has changed -/
+theorem evWave_reads_back (g : WCfg) (loc : Nat → Int) (o : OpRow) (sim : Nat) (c : Col)
+    (hd : ∀ l p q, 0 ≤ g.delay l p q) (hc : 4 ≤ g.cap o.out)
+    (hx : ∀ i ∈ o.ins, (readWave (rdCells c (loc i) (g.cap i))).ok) :
+    readWave (rdCells (evWave (fun _ => g) loc o sim c).1 (loc o.out) (g.cap o.out)) =
+      waveSem g ⟨o.lut, o.out, o.ins⟩ (o.ins.map fun i => readWave (rdCells c (loc i) (g.cap i))) ∧
+    (evWave (fun _ => g) loc o sim c).2 =
+      waveCounts g ⟨o.lut, o.out, o.ins⟩ (o.ins.map fun i => readWave (rdCells c (loc i) (g.cap i))) ∧
+    ∀ a, ¬ inRegion loc g.cap o.out a → (evWave (fun _ => g) loc o sim c).1 a = c a := by
+  have hxs : ∀ x ∈ (o.ins.map fun i => readWave (rdCells c (loc i) (g.cap i))), x.ok := by
+    intro x hx'
+    obtain ⟨i, hi, rfl⟩ := List.mem_map.mp hx'
+    exact hx i hi
+  have hok := waveSem_ok g ⟨o.lut, o.out, o.ins⟩ _ hd hc hxs
+  have hlen : (waveSem g ⟨o.lut, o.out, o.ins⟩ (o.ins.map fun i => readWave (rdCells c (loc i) (g.cap i)))).ents.length < g.cap o.out :=
+    waveSem_len g ⟨o.lut, o.out, o.ins⟩ (o.ins.map fun i => readWave (rdCells c (loc i) (g.cap i))) (by show 2 ≤ g.cap o.out; omega)
+  obtain ⟨h1, h2⟩ := ok_stored hok
+  have key : (evWave (fun _ => g) loc o sim c).1 =
+      wrWave c (loc o.out) (waveSem g ⟨o.lut, o.out, o.ins⟩ (o.ins.map fun i => readWave (rdCells c (loc i) (g.cap i)))) := rfl
+  rw [key]
+  generalize waveSem g ⟨o.lut, o.out, o.ins⟩ (o.ins.map fun i => readWave (rdCells c (loc i) (g.cap i))) = w at hlen h1 h2
+  refine ⟨?_, rfl, ?_⟩
+  · exact read_wrWave c (loc o.out) w (g.cap o.out) (by omega) h1 h2
+  · intro a ha
+    apply wrWave_frame
+    intro h
+    apply ha
+    exact ⟨h.1, by have := h.2; omega⟩
+
 /-! ### Boolean form of the independence of two op rows under a memory map -/
 def disjointB (loc : Nat → Int) (cap : Nat → Nat) (i j : Nat) : Bool :=
   decide (loc i + (cap i : Int) ≤ loc j) || decide (loc j + (cap j : Int) ≤ loc i)
